@@ -253,6 +253,16 @@ def r13_play(ctx):
         if not (any(slept) and not all(slept)):
             ok_all = False
             why = why or 'sleep is not conditional on the remaining time being positive'
+        # every message that is handed out has its scheduled time waited for - meta messages too when they are yielded:
+        # for each of the three messages some outcome must sleep for exactly its remaining time
+        exp = [d1.sub(P('c1').sub(P('c0'))), d1.add(d2).sub(P('c2').sub(P('c0'))), d1.add(d2).sub(P('c3').sub(P('c0')))]
+        for k, (ek, what) in enumerate(zip(exp, ('the note_on', 'the marker (a meta message)', 'the closing end_of_track'))):
+            if k > 0 and not meta_on:
+                continue            # a message that is not handed out need not be waited for (the next one has its own schedule)
+            hit = any(e[0] == 'sleep' and isinstance(e[1], Poly) and e[1].close_to(ek) for oc in outs for e in oc.log)
+            if not hit and ok_all:
+                ok_all = False
+                why = f'no execution waits for the scheduled time of {what}: it is handed out (or passed over) the moment its predecessor was - before its time'
         ctx.require(ok_all, 'R13.4', inst, w, why, construct=cons + f'::schedule(meta={meta_on})')
     for q in ai.inlined:
         ctx.functions.add(q)
